@@ -874,6 +874,18 @@ def u_wiring(ctx, fn, rr=None, rand=None):
     ctx.check(f"{name}/post:trees_built_before_linking", all(k < log.index(links[0]) for k, e in enumerate(log) if e[0] == "build") if links else False)
 
 
+# tree b of a patch holds exactly the records whose redshift lies in bin b under the configured closed side, and the sum of
+# weights stored with it is their true sum: the C10 units on build_trees / AngularTree.__init__, run here as well
+def _register_shared():
+    from . import C10 as _C10
+    unit(P, "build_trees", fuc=["yaw.catalog.trees:build_trees"],
+         cases=[dict(closed=c, has_weights=w, binned=True) for c in _C10.CLOSED for w in (False, True)] + [dict(closed="right", has_weights=w, binned=False) for w in (False, True)],
+         trusted=["groupby contract", "np.digitize"])(_C10.u_build)
+
+
+_register_shared()
+
+
 # ---------------------------------------------------------------------------------------------------------
 # bounded stand-ins and replay on the real library
 # ---------------------------------------------------------------------------------------------------------
